@@ -83,6 +83,7 @@ type spy struct {
 	blobstore.BlobAccess
 	log      backends.Log
 	reported map[digest.Digest]bool // told "present" by a successful FindMissing
+	served   map[digest.Digest]bool // a Get of the object was answered with the object (not with an error)
 	asked    map[digest.Digest]bool
 	finds    int
 	gets     int
@@ -91,7 +92,7 @@ type spy struct {
 }
 
 func newSpy(inner blobstore.BlobAccess) *spy {
-	return &spy{BlobAccess: inner, reported: map[digest.Digest]bool{}, asked: map[digest.Digest]bool{}}
+	return &spy{BlobAccess: inner, reported: map[digest.Digest]bool{}, served: map[digest.Digest]bool{}, asked: map[digest.Digest]bool{}}
 }
 
 func (s *spy) FindMissing(ctx context.Context, ds digest.Set) (digest.Set, error) {
@@ -122,7 +123,13 @@ func (s *spy) FindMissing(ctx context.Context, ds digest.Set) (digest.Set, error
 func (s *spy) Get(ctx context.Context, d digest.Digest) buffer.Buffer {
 	s.gets++
 	s.log.Add(backends.Call{Backend: "cas", Op: "Get", Digests: []digest.Digest{d}})
-	return s.BlobAccess.Get(ctx, d)
+	b := s.BlobAccess.Get(ctx, d)
+	// Handing out the object is the CAS saying that it holds it (a damaged
+	// or failing stream is judged separately, as an unreadable Tree).
+	if _, err := b.GetSizeBytes(); err == nil {
+		s.served[d] = true
+	}
+	return b
 }
 
 func (s *spy) Put(ctx context.Context, d digest.Digest, b buffer.Buffer) error {
